@@ -156,10 +156,10 @@ Theorem C08_stdout_checker_accepts_model : forall m s f c, small_figures (report
 Proof. exact (fun m s f c H => stdout_checker_accepts_model _ _ (report c) (report_names_sorted c) H). Qed.
 Print Assumptions C08_stdout_checker_accepts_model.
 
-(* report --task: for a good task (no frame of unknown address left open) the task's line shows the summed
+(* report --task: for a good task (inherited frames included, see C08_inherited_task) the task's line shows the summed
    duration of its top-level calls (Total = Self) and the number of counted calls. *)
 Theorem C08_task_line : forall max_stack tt,
-  good_task max_stack tt -> Forall (fun o => o_addr o <> 0) (tt_open tt) ->
+  good_task max_stack tt ->
   sumN (map w_self (spec_task tt)) < M64 ->
   task_line max_stack (trace_recs tt) = (top_time tt, N.of_nat (length (spec_task tt))).
 Proof. exact task_line_good. Qed.
@@ -251,6 +251,15 @@ Theorem C08_task_mode_open_legacy_refuted :
   /\ task_line 1024 killed = (8000, 4) /\ task_line 1024 noexit = (4000, 2).
 Proof. exact task_mode_open_legacy_refuted. Qed.
 Print Assumptions C08_task_mode_open_legacy_refuted.
+
+(* ... and the frames a forked child inherits and never returns from were skipped (fix 4ec4e50) *)
+Theorem C08_task_mode_inherited_legacy_refuted :
+  let child := [mkrec EXIT 1 30 1310; mkrec ENTRY 1 20 1400; mkrec EXIT 1 20 1500; mkrec ENTRY 1 20 1600;
+                mkrec EXIT 1 20 1650] in
+  task_line_legacy 1024 child = (150, 3) /\ task_line 1024 child = (340, 4)
+  /\ sumN (map w_self (task_rows 1024 child)) = 340.
+Proof. exact task_mode_inherited_legacy_refuted. Qed.
+Print Assumptions C08_task_mode_inherited_legacy_refuted.
 
 (* report --diff (no colours): the sign of a time difference was inverted; now "-" means a decrease *)
 Theorem C08_diff_sign_legacy_refuted :
